@@ -1,3 +1,81 @@
-import Babylon.Core.Proto
-/-! Line-protocol driver for property C03 (stub). -/
-def main : IO Unit := Babylon.Core.runLines (fun (s : Unit) _ => (s, "bad-op")) ()
+import Babylon.Core.Trace
+import Babylon.Swiss.Conc
+/-! Lock-step replay driver for property C03 (concurrent swiss table / transient hash set).
+stdin: runs `RUN <seed> n0=<head buckets, 0 = default-constructed placeholder> …` / VRT trace lines /
+`END`; stdout per run: `ok <n>` | `diverge <why>`.  The hash is the identity (the harness uses an
+identity hasher; bad hash families are produced by the choice of keys). -/
+open Babylon.Core Babylon.Swiss Babylon.Swiss.Conc
+
+def hashId : Nat → Nat := fun k => k
+
+structure RState where
+  s : State
+
+def initR (hdr : List String) : RState :=
+  let n0 := (hdr.filterMap (fun h => if h.startsWith "n0=" then (h.drop 3).toNat? else none)).head?.getD 16
+  { s := State.init (if n0 = 0 then Table.placeholder else Table.mk' n0) }
+
+def isTau : Act → Bool
+  | .ev ("tau" :: _) => true
+  | _ => false
+
+/-- run the unobserved (`tau`) steps thread `t` performs before its next scheduling point -/
+def runTau (s : State) (t : Nat) : Nat → State
+  | 0 => s
+  | fuel + 1 =>
+    match s.pc t with
+    | .construct _ _ | .sz _ _ =>
+      match stepThread hashId s t with
+      | some (s', _) => runTau s' t fuel
+      | none => s
+    | _ => s
+
+def showRes : Res → String
+  | .none => "end"
+  | .slot tb i ins => s!"{tb} {i} {if ins then 1 else 0}"
+
+def kindOf : String → Option Kind
+  | "templace" => some .tEmplace | "tfind" => some .tFind
+  | "emplace" => some .sEmplace | "find" => some .sFind
+  | _ => none
+
+def stepObs (r : RState) (o : Obs) : Except String RState :=
+  let t := o.tid
+  let s := r.s
+  match Act.ofObs o with
+  | none => .error "unknown trace line"
+  | some (.ev ["call", k, key, v]) =>
+    match kindOf k, key.toNat?, v.toNat? with
+    | some k, some key, some v =>
+      if s.pc t = .idle then .ok { r with s := doCall hashId s t k (key, v) }
+      else .error s!"call while the model thread is at {reprStr (s.pc t)}"
+    | _, _, _ => .error "bad call event"
+  | some (.ev ("ret" :: k :: res)) =>
+    match s.pc t, kindOf k with
+    | .ret f rr, some k =>
+      let want := if f.kind.isFind then (match rr with | .slot tb i _ => s!"{tb} {i}" | .none => "end") else showRes rr
+      if f.kind ≠ k then .error "return from another kind of call"
+      else if " ".intercalate res = want then .ok { r with s := doRet s t f rr }
+      else .error s!"implementation returned `{" ".intercalate res}`, model says `{want}`"
+    | p, _ => .error s!"implementation returned but the model thread is at {reprStr p}"
+  | some (.ev ["alloc", id, n]) =>
+    -- the harness's allocation hook: the node just created by `new TableNode` in this thread
+    match s.pc t with
+    | .nextCas _ nw =>
+      if some nw = id.toNat? ∧ some (s.node nw).tab.n = n.toNat? then .ok r
+      else .error s!"allocation of node {id} with {n} buckets, model allocated node {nw} with {(s.node nw).tab.n}"
+    | p => .error s!"allocation while the model thread is at {reprStr p}"
+  | some (.ev ("ORACLE" :: _)) | some (.ev ("stats" :: _)) | some (.ev ("note" :: _)) => .ok r
+  | some (.spawn _) | some (.join _) | some .exit => .ok r
+  | some (.race ws) => .error s!"HB race monitor: {" ".intercalate ws}"
+  | some a =>
+    match stepThread hashId s t with
+    | none => .error s!"implementation performs {reprStr a} but the model thread is at {reprStr (s.pc t)}"
+    | some (s', l) =>
+      if l = a then .ok { r with s := runTau s' t 4 }
+      else .error s!"model expects {reprStr l}, implementation did {reprStr a}"
+
+def finalR (r : RState) : Except String Unit := .ok ()
+
+def main : IO Unit := do
+  replayLoop (← IO.getStdin) initR stepObs finalR
